@@ -66,6 +66,8 @@ def gen_knobs(rng):
     "df": df, "start": start,
     # probability of a second mid-row code straight after the first (colour then italics = coloured italics; italics then colour = colour only)
     "mid2": rng.choice([0.0, 0.3, 0.6]),
+    # probability that a roll-up row is sent without a PAC after the carriage return
+    "nopac": rng.choice([0.0, 0.3, 0.6]),
     "chan": {"double": rng.random() < 0.7, "null": rng.choice([0.0, 0.0, 0.1, 0.3]), "ch2": rng.choice([0.0, 0.0, 0.1, 0.3]),
              "parity_off": rng.choice([0.0, 0.0, 0.5, 1.0]), "line_len": rng.choice([6, 12, 20, 40, 1000]), "split": rng.choice([0.0, 0.0, 0.5, 1.0])},
     "chan2": {"double": rng.random() < 0.5, "null": rng.choice([0.0, 0.2]), "ch2": rng.choice([0.0, 0.2]), "parity_off": rng.choice([0.0, 1.0]),
@@ -435,7 +437,7 @@ def valid_script(ops, allow_unclean=True):
       elif n == "CR":
         if mode != "roll":
           return False
-        have_pos = False
+        have_pos = True  # column 1 of the base row
       elif n == "EOC":
         if mode != "pop":
           return False
